@@ -24,7 +24,8 @@ import conn
 import explore
 import linear
 
-WRAPPERS = ("as_bytes", "as_slice", "as_ref", "deref", "borrow", "as_str", "clone", "as_mut", "deref_mut")
+# calls whose result has the same encoded size as their receiver (views of the same bytes, or its serialisation)
+WRAPPERS = ("as_bytes", "as_slice", "as_ref", "deref", "borrow", "as_str", "clone", "as_mut", "deref_mut", "to_continuous_buffer", "to_buffers", "to_vec")
 IDLEN = ("IDLEN",)
 
 
@@ -134,7 +135,24 @@ class Acct:
         else:
             ex = explore.Explorer(F)
         ex.no_fold = ("VariableByteInteger::from_u32",)
-        ps = ex.run(bfn)
+        setup_b = None
+        if not parser:
+            # list-valued builder inputs (subscription entries, topic filters) are given two symbolic elements, so that
+            # whatever idiom sums their sizes / serialises them is followed element by element
+            bobj = F.fns[bfn]
+            badt = F.adts.get(bobj.get("impl_self", "").split("<")[0])
+            lf = []
+            if badt and badt.get("variants"):
+                for f in badt["variants"][0]["fields"]:
+                    m = re.match(r"^std::option::Option<std::vec::Vec<(mqtt::[\w:]+)", f["ty"])
+                    if m and not m.group(1).endswith("property::Property"):
+                        lf.append((f["i"], f["name"]))
+            if lf:
+                def setup_b(exx, st, fr, lf=lf):
+                    for i, name in lf:
+                        items = [("sym", ("elem", name, k)) for k in range(2)]
+                        st.heap[(fr.root(1), (("f", i, name),))] = ("agg", "std::option::Option", "Some", (exx.cseq_new(st, name, items),))
+        ps = ex.run(bfn, setup=setup_b)
         exp = lambda t: conn.expand_all(ex.interned_rev, t)
         lin = linear.Lin(exp)
         rec = {"ver": ver, "kind": kind, "fn": bfn, "ok": 0, "diff": [], "undecided": [], "prop_ok": 0, "prop_diff": []}
@@ -170,6 +188,9 @@ class Acct:
             def setup(exx, st, fr, S=S, fields=fields, p=p):
                 for fd, v in zip(fields, S[3]):
                     st.heap[(("self",), (("f", fd["i"], fd["name"]),))] = v
+                for hk, hv in p.heap.items():
+                    if hk[0] and hk[0][0] == "CS":
+                        st.heap[hk] = hv             # elements of the concrete lists the value refers to
                 st.cons.update(p.cons)
             try:
                 qs = ex2.run(sorted(ser)[0], setup=setup)
@@ -310,8 +331,10 @@ class Ctx:
             return linear.atom(IDLEN)
         if v[0] == "arr":
             return linear.const(len(v[1]))
-        if v[0] == "vec" and not v[1]:
-            return linear.const(0)
+        if v[0] == "vec":
+            l = self.lin.len_of(v)                 # byte vector built on the path: sum of what was appended
+            if not any(isinstance(a, tuple) and a and a[0] == "len" and a[1] == v for a in l[0]):
+                return self.canon(l)
         if v[0] == "agg" and v[1] == AP and arc_model(self.F)["ok"] and v[2] in arc_model(self.F)["field"]:
             return self.canon(self.lin.of_value(v[3][arc_model(self.F)["field"][v[2]]]))
         if v[0] == "sym" and v[1][0] == "call":
